@@ -243,7 +243,8 @@ func c15Shapes(t *rapid.T) C15Step {
 		return S("hash", pick(t, "hg", "HGETALL", "HGETALL", "HKEYS", "HVALS"), hk())
 	case 9:
 		return S("hash", "HINCRBYFLOAT", pick(t, "hfk", "kh2", "kh2", "kh", "hnew", "ks"), pick(t, "hff", "n", "i", "u", "s", "fresh"),
-			pick(t, "hfv", "0.25", "-1.5", "1e2", "3", "0", "abc", "1e400"))
+			// (magnitudes at which 'f' and 'g' float formatting differ are part of the pool)
+			pick(t, "hfv", "0.25", "-1.5", "1e2", "3", "0", "abc", "1e400", "0.00001", "-0.000002", "1e-7", "1000000000000000000000", "1e21", "123456789.5", "-1e6", "4e15"))
 	case 10:
 		return S("hash", "HMGET", hk(), pick(t, "f1", "n", "zz", "f"), pick(t, "f2", "i", "zz", "g"), "zz")
 	case 11:
